@@ -65,6 +65,9 @@ CHECKS["C18"] = ("bounded-exhaustive enumeration of (interrupt, AH) x register l
 CHECKS["C20"] = ("deviation-bounded exhaustive exploration of prompt scripts on the real CLI binary: for every (program, stepping mode) the default script answers every read with n; ALL scripts with at most d deviations (alternative advancing answers, non-advancing answers inserted, terminating answers, end of input at every read) are run; stdout matched event by event against the reference interpreter, plus a relational oracle (stepped output minus prompt artefacts equals the plain run)",
     "10 (thorough 12) terminating programs x stepping by -i, by POPF-set trap flag at position k, by INT 3 at position k and everywhere; complete script sets to 1 or 2 (thorough 3) deviations per pair; exactly one prompt per executed instruction naming its line, prints answered without advancing, quit and end of input terminate, no script spins or aborts (watchdog, output cap).",
     "DESIGN.md section 6 C20")
+CHECKS["C16"] = ("bounded-exhaustive enumeration of program templates (item kind x placement) x layouts (filler lines, comments, final newline) with generator-known token positions: library-level source-map check on the real Preprocessor, every run-time message through the real CLI binary (plain and -i), and every single-token corruption (invalid character, unexpected token, truncation) at every token position plus semantic errors at first/middle/last line, with the reported line, column and text compared with the generator-known position",
+    "34 templates (print, INT 3, divide error, unsupported AH x first/middle/last line, inside procedures, macro bodies, nested macros; loops) x 10 layouts; every emitted instruction maps into its source line (outermost macro use, closing brace for the implied ret); all messages cite the right line number and text; about 11 000 corrupted files: the diagnostic cites the line, column and text of the offending token, also on a last line without newline.",
+    "DESIGN.md section 6 C16")
 NOT_YET = {}
 
 def main():
